@@ -48,13 +48,14 @@ Theorem C06_edge_id_unique :
     e_sa e1 = e_sa e2 -> e_da e1 = e_da e2 -> e_idx e1 = e_idx e2 -> i = j.
 Proof. exact edge_id_unique. Qed.
 
-(* the hypotheses hold for every graph built by any number of EnsureChild / Connect calls *)
+(* the hypotheses hold for every graph built by any number of EnsureChild / Connect / compileClass|SQLTable
+   steps (C09's guard: the root of the board is not itself made a class / sql_table) *)
 Theorem C06_reachable_graphs :
-  forall (lr : N -> N) (ops : list op),
+  forall (lr : N -> N) (ops : list op), Forall (fun o => o <> OpTable []) ops ->
     let g := run_ops obj_id (map lr) ops in
     WF (map lr) g /\ Named g /\ NoDup (map ekey (g_edges g)).
 Proof.
-  intros lr ops. destruct (inv_run lr ops) as [_ [W [Nm [ND _]]]]. cbn zeta. split; [exact W|split; [exact Nm|exact ND]].
+  intros lr ops F. destruct (inv_run lr ops F) as [_ [W [Nm [[ND _] _]]]]. cbn zeta. split; [exact W|split; [exact Nm|exact ND]].
 Qed.
 
 Theorem C06_edges_distinct_b_reflects :
@@ -74,7 +75,8 @@ Example C06_hyps_satisfiable :
       WF to_lower g /\ Named g /\ listed g 2 /\ NoDup (map ekey (g_edges g))).
 Proof.
   split; [repeat constructor|]. split; [exact to_lower_class_pres|].
-  destruct (inv_run to_lower_rune [OpConnect [] [[97%N]; [66%N]] [[97%N]; [98%N]; [99%N]] false true]) as [_ [W [Nm [ND _]]]].
+  destruct (inv_run to_lower_rune [OpConnect [] [[97%N]; [66%N]] [[97%N]; [98%N]; [99%N]] false true]) as [_ [W [Nm [[ND _] _]]]];
+    [repeat constructor; discriminate|].
   cbn zeta. split; [exact W|split; [exact Nm|split; [|exact ND]]]. vm_compute. right. left. reflexivity.
 Qed.
 
